@@ -113,7 +113,10 @@ class Variable(FortranObj):
     def get_type_obj(self, obj_tree):
         if self.link_obj is not None:
             return self.link_obj.get_type_obj(obj_tree)
-        if (self.type_obj is None) and (self.parent is not None):
+        # Looked up on every call: the file defining the type may have been
+        # edited, replaced or removed since the last request
+        self.type_obj = None
+        if self.parent is not None:
             type_name = get_paren_substring(self.get_desc(no_link=True))
             if type_name is not None:
                 search_scope = self.parent
